@@ -267,7 +267,7 @@ def corpus_cases(prop):
 # ---------------------------------------------------------------------------------------------
 # campaign runner (worker side)
 
-CASE_LIMIT_S = int(os.environ.get('VERIF_CASE_LIMIT_S', '240'))
+CASE_LIMIT_S = int(os.environ.get('VERIF_CASE_LIMIT_S', '90'))
 
 
 class CaseHung(BaseException):
@@ -355,7 +355,7 @@ def _worker(args):
                                                               observed={'limit_s': CASE_LIMIT_S})], None, ['case-hung']))
                     held = None
                     hung = out['tags'].get('case-hung', 0)
-                    if hung >= 3:
+                    if hung >= 2:
                         break
                     continue
                 except Exception:
